@@ -15,6 +15,7 @@ package multinode
 
 import (
 	"context"
+	"encoding/json"
 	"strings"
 	"sync"
 	"sync/atomic"
@@ -89,11 +90,15 @@ func (s *Service) submitAttestations(ctx context.Context,
 	_, address := s.serviceInfo(ctx, submitter)
 	started := time.Now()
 	_, err := util.Scatter(len(attestations), int(s.processConcurrency), func(offset int, entries int, _ *sync.RWMutex) (interface{}, error) {
-		return nil, submitter.SubmitAttestations(ctx, attestations[offset:offset+entries])
+		err := submitter.SubmitAttestations(ctx, attestations[offset:offset+entries])
+		if err != nil {
+			// Each batch is assessed on its own, so that an allowable error
+			// from one batch cannot mask a real error from another.
+			err = s.handleAttestationsError(ctx, submitter, err)
+		}
+
+		return nil, err
 	})
-	if err != nil {
-		err = s.handleAttestationsError(ctx, submitter, err)
-	}
 
 	s.clientMonitor.ClientOperation(address, "submit attestations", err == nil, time.Since(started))
 	if err != nil {
@@ -112,20 +117,20 @@ func (s *Service) handleAttestationsError(ctx context.Context,
 ) error {
 	serverType, _ := s.serviceInfo(ctx, submitter)
 	switch {
-	case serverType == "lighthouse" && strings.Contains(err.Error(), "PriorAttestationKnown"):
+	case serverType == "lighthouse" && onlyAttestationFailures(err, "PriorAttestationKnown"):
 		// Lighthouse rejects duplicate attestations.  It is possible that an attestation we sent
 		// to another node already propagated to this node, so ignore the error.
 		s.log.Trace().Msg("Lighthouse node already knows about attestation; ignored")
 		// Not an error as far as we are concerned, so clear it.
 		err = nil
-	case serverType == "lighthouse" && strings.Contains(err.Error(), "UnknownHeadBlock"):
+	case serverType == "lighthouse" && onlyAttestationFailures(err, "PriorAttestationKnown", "UnknownHeadBlock"):
 		// Lighthouse rejects an attestation for a block that is not its current head.  It is possible
 		// that the node is just behind, and we can't do anything about it anyway at this point having
 		// already signed an attestation for this slot, so ignore the error.
 		s.log.Debug().Err(err).Msg("Lighthouse node does not know head block; rejected")
 		// Not an error as far as we are concerned, so clear it.
 		err = nil
-	case serverType == "nimbus" && strings.Contains(err.Error(), "Attempt to send attestation for unknown target"):
+	case serverType == "nimbus" && onlyAttestationFailures(err, "Attempt to send attestation for unknown target"):
 		// Nimbus rejects an attestation for a block when it does not know the target.  It is possible
 		// that the node is just behind, and we can't do anything about it anyway at this point having
 		// already signed an attestation for this slot, so ignore the error.
@@ -135,4 +140,45 @@ func (s *Service) handleAttestationsError(ctx context.Context,
 	}
 
 	return err
+}
+
+// onlyAttestationFailures returns true if the error mentions at least one of the allowable
+// failures and, where the node itemises its failures, every one of them is allowable.
+func onlyAttestationFailures(err error, allowable ...string) bool {
+	isAllowable := func(msg string) bool {
+		for i := range allowable {
+			if strings.Contains(msg, allowable[i]) {
+				return true
+			}
+		}
+
+		return false
+	}
+
+	errorStr := err.Error()
+	if !isAllowable(errorStr) {
+		return false
+	}
+
+	// Fetch the JSON response from the error, if present.
+	jsonIndex := strings.Index(errorStr, "{")
+	if jsonIndex == -1 {
+		return true
+	}
+	resp := struct {
+		Failures []*struct {
+			Message string `json:"message"`
+		} `json:"failures"`
+	}{}
+	if jsonErr := json.Unmarshal([]byte(errorStr[jsonIndex:]), &resp); jsonErr != nil {
+		// Not in a format we understand; go with the mention.
+		return true
+	}
+	for _, failure := range resp.Failures {
+		if failure == nil || !isAllowable(failure.Message) {
+			return false
+		}
+	}
+
+	return true
 }
